@@ -147,7 +147,14 @@ def related_sources(rng):
          ('binary', 'add', base, patch), ('field', ('binary', 'add', base, patch), 'x'),
          ('binary', 'add', base, okpatch), ('field', ('binary', 'add', base, okpatch), 'y'),
          ('binary', 'add', ('binary', 'add', base, okpatch), patch),
-         ('binary', 'eq', ('binary', 'add', base, patch), ('binary', 'add', base, okpatch))],
+         ('binary', 'eq', ('binary', 'add', base, patch), ('binary', 'add', base, okpatch)),
+         # derived objects are new selves: the asserts of the source are checked against THEM
+         ('std', 'objectRemoveKey', [base, ('str', 'x')]), ('std', 'length', [('std', 'objectRemoveKey', [base, ('str', 'x')])]),
+         ('std', 'objectRemoveKey', [('binary', 'add', base, okpatch), ('str', 'x')]),
+         ('std', 'objectRemoveKey', [base, ('str', 'nothing')]),
+         ('std', 'mapWithKey', [('func', [('k', None), ('v', None)], V('v')), base]),
+         ('std', 'mergePatch', [base, ('object', [('fix', 'x', False, 'd', None, ('null',))])]),
+         ('std', 'prune', [base])],
         [layered, ('std', 'objectFieldsEx', [layered, ('true',)]), ('std', 'objectFieldsEx', [layered, ('false',)]),
          ('std', 'length', [layered]), ('binary', 'eq', layered, layered),
          ('std', 'objectRemoveKey', [layered, key]),
